@@ -238,7 +238,11 @@ def run(res, tier):
                 d_ = (case['ns'], case['nu'])
                 for spec_ in case['chain']:
                     d_ = sg.dims_out(spec_, *d_)
-                Ou, Os = oracle_pairs(Xt, d_[1], case['ep'])
+                try:
+                    Ou, Os = oracle_pairs(Xt, d_[1], case['ep'])
+                except ValueError:
+                    # the transformed data does not even have the documented number of lifted inputs
+                    Ou = Os = np.zeros((0, 0))
                 if Ou.shape != U.shape or Os.shape != S.shape or not (np.array_equal(Ou, U) and np.array_equal(Os, S)):
                     impl_bad.append(dict(payload, kind='pipeline', got_unshifted=U.tolist(), got_shifted=S.tolist(),
                                          want_unshifted=Ou.tolist(), want_shifted=Os.tolist()))
